@@ -394,6 +394,51 @@ def o3(rep, src):
         rep.violation("O3", "DataType::flatten_optional", "flatten_optional does not wrap the flattened type in Optional exactly when the flag is set", g.where())
 
 
+SIBLING_EXCEPTIONS = {
+    "cast": "each arm converts from another source type (integer -> float, float -> integer): different operations by design",
+    "extract_epoch": "each arm starts from another temporal type (Duration, Date, DateTime) and needs another conversion to seconds",
+}
+
+
+def rule_s(rep, src):
+    """Sibling implementations of one SQL function (one PartitionnedMonotonic per argument type) compute the same operator."""
+    import re
+
+    rep.rule(
+        "S",
+        "sibling agreement: within one `pub fn <name>()` of data_type/function.rs, the closures given to the PartitionnedMonotonic constructors of the different argument types are the same operator "
+        "after normalising saturating_*/clamp (reviewed exceptions: cast, extract_epoch)",
+        floor=10,
+        necessary="an arm that computes another operator (max in one arm of `least`) is monotone, so its range is 'sound' for the wrong function: the value and the range of the SQL function disagree for that argument type",
+    )
+
+    def norm(cl):
+        t = show(cl["body"], 0)
+        ps = [p.get("name") or show(p, 0) for p in cl["params"]]
+        for i, p in enumerate(ps):
+            t = re.sub(r"\b%s\b" % re.escape(p), "p%d" % i, t)
+        for a, b in (("saturating_add", "+"), ("saturating_sub", "-"), ("saturating_mul", "*"), ("saturating_div", "/")):
+            t = re.sub(r"(\w+)\.%s\((\w+)\)" % a, r"\1 %s \2" % b, t)
+        t = re.sub(r"\.clamp\(.*\)$", "", t).strip("() ")
+        return t.replace(" ", "")
+
+    for f in src.find_fns(file="data_type/function.rs"):
+        if f.self_ty or f.node.get("vis") != "pub":
+            continue
+        cls = []
+        for c in find(f.body, "call"):
+            p = path_of(c["f"]) or ""
+            if p.startswith("PartitionnedMonotonic::"):
+                cls += [norm(a) for a in c["args"] if a["k"] == "closure"]
+        if len(cls) < 2:
+            continue
+        key = "function::" + f.name
+        u = sorted(set(cls))
+        rep.instance("S", key, {"fn": f.name, "arms": len(cls), "operators": u, "exception": SIBLING_EXCEPTIONS.get(f.name)}, nontrivial=f.name not in SIBLING_EXCEPTIONS)
+        if len(u) > 1 and f.name not in SIBLING_EXCEPTIONS:
+            rep.violation("S", key, "the arms of %s compute different operators: %s" % (f.name, u), f.where())
+
+
 def run(rep):
     from . import util_c06 as u
 
@@ -410,6 +455,7 @@ def run(rep):
     u.rule_a(rep, src)
     u.rule_o2(rep, src)
     u.rule_o(rep, src)
+    rule_s(rep, src)
     o3(rep, src)
     from .util_enum import n1
 
